@@ -349,7 +349,7 @@ def scenario(case, k):
         else:
             for i, f in enumerate(ef):
                 L.append("eforce %d %s %s %s" % (i + 1, hx(f[0]), hx(f[1]), hx(f[2])))
-        L += ["step", "fj"] + (["rot v"] if any(c.get("rotate") for c in case["comps"]) else [])
+        L += ["step", "fj"] + (["rot v"] if (case["type"] == "DIV" or any(c.get("rotate") for c in case["comps"])) else [])
     L.append("echo END %d" % k)
     return L
 
@@ -758,6 +758,39 @@ def rot_case(r, kind):
     return c
 
 
+DIV_H = 2.0 ** -12
+
+
+def div_case(r, kind, rotate=False):
+    """numerical divergence of the inverse gradient field: same-step forces, T = 0, no bias; unit force on one coordinate at
+    positions displaced by +-h along that coordinate gives d v_(a,k) / d x_(a,k) by central difference"""
+    c = None
+    while c is None or c.get("cell") or c.get("late") or not inverse_ok(c):       # disjoint groups: the documented setting
+        c = rot_case(r, kind) if rotate else gen_case(r, 0, "RND", [kind])
+    cc = c["comps"][0]
+    cc["coeff"] = 1.0
+    c.update({"type": "DIV", "T": 0.0, "hide": False, "sub": False, "same": 1, "inc": 0, "bias": {"type": "none"}, "invok": False})
+    c.pop("tsf", None)
+    c.pop("offmode", None)
+    n = c["n"]
+    P = c["steps"][0]["pos"]
+    zero = [[0.0, 0.0, 0.0] for _ in range(n)]
+    steps = [{"pos": P, "ef": zero}]
+    probes = []
+    for a in sorted(set(comp_atoms(cc))):
+        for k in range(3):
+            ef = [list(z) for z in zero]
+            ef[a - 1][k] = 1.0
+            for sgn in (1.0, -1.0):
+                Q = [list(p) for p in P]
+                Q[a - 1][k] += sgn * DIV_H
+                steps.append({"pos": Q, "ef": ef})
+            probes.append([a, k])
+    c["steps"] = steps
+    c["probes"] = probes
+    return c
+
+
 def zero_total_case(r):
     """lagged forces, subtractAppliedForce, temperature 0: the engine force cancels the applied force exactly, so the
     measured total force is exactly zero and the reported one must be minus the applied force"""
@@ -857,6 +890,17 @@ def oracle(case, isteps):
             if tfs[1] != tfs[3]:
                 out.append(("timing:%s:lagged" % kd, "steps 1 and 3 follow identical steps (same positions, same forces) but report %r and %r: "
                             "the report of step t must be the projection of the forces of t-1 on the inverse gradients of t-1" % (tfs[1], tfs[3])))
+    if typ == "DIV":
+        jd = isteps[0].get("rot", {}).get(0, [None] * 5)[4]
+        if jd is not None and len(tfs) == 1 + 2 * len(case["probes"]):
+            div = sum((tfs[1 + 2 * i] - tfs[2 + 2 * i]) / (2.0 * DIV_H) for i in range(len(case["probes"])))
+            if abs(div - jd) > 2e-5 * max(1.0, abs(jd), abs(div)):
+                cc = case["comps"][0]
+                tag = "%s%s%s%s" % (cc["kind"], ":rotated" if cc.get("rotate") else "", ":permuted" if cc.get("perms") else "",
+                                    ":centered" if cc.get("center") else "")
+                out.append(("jacobian:divergence:%s" % tag,
+                            "the Jacobian derivative of the component is %r but the divergence of the inverse gradient field it projects the forces on "
+                            "(central differences, h = 2^-12, over the %d coordinates of its atoms) is %r" % (jd, len(case["probes"]), div)))
     if typ == "ZERO":
         # steps >= 2: the force that acted at the previous step is exactly zero
         for t in range(2, len(isteps)):
@@ -987,7 +1031,7 @@ def process(run, runner, cases, sample=0):
             run.mismatch("config:%s" % kd, {"case": c}, [cs["config"]] + [s["err"] for s in cs["steps"]], "accepted, all steps ok")
             continue
         isteps = cs["steps"]
-        nontriv = c.get("invok", False) and any(delivered_is_own(c, t) is not None for t in range(len(isteps))) or c["type"] in ("LIN", "LOC", "TIM", "ZERO", "ROT", "OFF")
+        nontriv = c.get("invok", False) and any(delivered_is_own(c, t) is not None for t in range(len(isteps))) or c["type"] in ("LIN", "LOC", "TIM", "ZERO", "ROT", "OFF", "DIV")
         run.count(json.dumps(c, sort_keys=True), bool(nontriv) and any(s["tf"].get("v") not in (None, 0.0) for s in isteps))
         for sig, text in oracle(c, isteps):
             run.violation(sig, text, rp)
@@ -1116,6 +1160,11 @@ def check(run):
                 c = gen_case(r, 0, "OFF", [kind])
             c["sub"] = sub
             first.append(c)
+    for rep in range(1 if quick else 12):                 # Jacobian derivative = divergence of the inverse gradient field
+        for kind in KINDS:
+            first.append(div_case(r, kind))
+        for kind in ("rmsd", "eigenvector"):
+            first.append(div_case(r, kind, rotate=True))
     for i in range(24 if quick else 1200):          # rotated frames
         first.append(rot_case(r, "rmsd" if i % 2 == 0 else "eigenvector"))
     n = 300 if quick else 12000
